@@ -121,6 +121,9 @@ CHECKS = {
             {"name": "c02", "run": "^TestC02_", "shards": {"quick": 16, "thorough": 16},
              "timeout": {"quick": 900, "thorough": 3000},
              "checks": ["c02-wire-order", "c02-handler-order"]},
+            {"name": "c02up", "run": "^TestC07_PausedPoll$", "shards": {"quick": 8, "thorough": 16},
+             "timeout": {"quick": 900, "thorough": 3000}, "env": {"VERIF_AS": "C02"},
+             "checks": ["c02-order-across-upgrade"]},
         ],
     },
     "C03": {
